@@ -248,7 +248,7 @@ fn put(b: &mut [u8], off: usize, width: usize, val: u64) {
 }
 
 /// plan: {"single": {"widths":[..], "stride": s}, "pairs": n, "havoc": n, "fields": [[off,w]..], "seed": ..}
-pub fn run_base(idx: u64, base: &Value, out: &mut Out) -> (u64, u64) {
+pub fn run_base(idx: u64, base: &Value, out: &mut Out) -> (u64, u64, [u64; 4]) {
     let bytes = from_bytes(&base["file"]);
     let init_bytes: Option<Vec<u8>> = if base["init"].is_array() { Some(from_bytes(&base["init"])) } else { None };
     let init_reader = init_bytes.as_ref().and_then(|ib| {
@@ -263,6 +263,10 @@ pub fn run_base(idx: u64, base: &Value, out: &mut Out) -> (u64, u64) {
     let run = |b: &[u8]| {
         if each {
             eprintln!("EACH {}", digest(b).iter().map(|x| format!("{:02x}", x)).collect::<String>());
+            // the input about to be executed, for the replay file of a worker crash
+            if let Ok(p) = std::env::var("MP4V_CUR") {
+                let _ = std::fs::write(p, serde_json::to_vec(&bytes_val(b)).unwrap_or_default());
+            }
         }
         let mut o = execute(b, init_reader.as_ref());
         // wall-clock guard: only an execution that is slow three times in a row counts (a loaded
@@ -278,6 +282,9 @@ pub fn run_base(idx: u64, base: &Value, out: &mut Out) -> (u64, u64) {
     // the unmodified input
     blk.last_input = bytes.clone(); blk.add(run(&bytes), json!("unmodified"));
     let len = bytes.len();
+    let mut phases = [0u64; 4];
+    let mark = |blk: &Block, prev: u64| blk.total - prev;
+    let mut prev = blk.total;
     // (1) every offset x width x boundary value
     let stride = plan["single"]["stride"].as_u64().unwrap_or(1).max(1) as usize;
     let lo = plan["region"][0].as_u64().unwrap_or(0) as usize;
@@ -297,8 +304,28 @@ pub fn run_base(idx: u64, base: &Value, out: &mut Out) -> (u64, u64) {
             off += stride;
         }
     }
-    // (2) pairs over the specification's field map
-    let fields: Vec<(usize, usize)> = plan["fields"].as_array().map(|a| a.iter().map(|f| (f[0].as_u64().unwrap_or(0) as usize, f[1].as_u64().unwrap_or(4) as usize)).collect()).unwrap_or_default();
+    phases[0] = mark(&blk, prev);
+    prev = blk.total;
+    // (2) every field of the specification's field map (at its own width, 64-bit fields included)
+    //     x boundary values, then seeded pairs of fields
+    let fields: Vec<(usize, usize)> = base["fields"].as_array().map(|a| a.iter().map(|f| (f[0].as_u64().unwrap_or(0) as usize, f[1].as_u64().unwrap_or(4) as usize)).collect()).unwrap_or_default();
+    if plan["field_singles"].as_bool().unwrap_or(false) {
+        for &(o, w) in fields.iter() {
+            if w == 0 || w > 8 || o + w > len {
+                continue;
+            }
+            for &v in boundary_values(w, len as u64).iter() {
+                let mut b = bytes.clone();
+                put(&mut b, o, w, v);
+                if b == bytes {
+                    continue;
+                }
+                blk.last_input = b.clone(); blk.add(run(&b), json!([[o, w, big(v)]]));
+            }
+        }
+    }
+    phases[1] = mark(&blk, prev);
+    prev = blk.total;
     let npairs = plan["pairs"].as_u64().unwrap_or(0);
     if fields.len() >= 2 {
         for _ in 0..npairs {
@@ -315,6 +342,8 @@ pub fn run_base(idx: u64, base: &Value, out: &mut Out) -> (u64, u64) {
             blk.last_input = b.clone(); blk.add(run(&b), json!([[o1, w1, big(v1)], [o2, w2, big(v2)]]));
         }
     }
+    phases[2] = mark(&blk, prev);
+    prev = blk.total;
     // (3) byte-level havoc: flips, splices, truncations, duplicated regions, size arithmetic
     for _ in 0..plan["havoc"].as_u64().unwrap_or(0) {
         let mut b = bytes.clone();
@@ -380,6 +409,7 @@ pub fn run_base(idx: u64, base: &Value, out: &mut Out) -> (u64, u64) {
         }
         blk.last_input = b.clone(); blk.add(run(&b), json!(what));
     }
+    phases[3] = mark(&blk, prev);
     blk.flush();
-    (blk.total, blk.panics)
+    (blk.total, blk.panics, phases)
 }
